@@ -405,6 +405,7 @@ func admitCR(ki *KindInfo, vi *VersionInfo, m map[string]any) error {
 		return nil
 	}
 	pruning.PruneWithOptions(m, vi.Structural, true, structuralschema.UnknownFieldPathOptions{})
+	dropNulls(m, vi.Structural)
 	applyDefaults(m, vi.Structural)
 	// validate everything but metadata (ObjectMeta is validated separately).
 	c := make(map[string]any, len(m))
